@@ -477,6 +477,7 @@ type pathWalker struct {
 	mu         *sync.Mutex
 	loadHook   func(*pwPath, *ssa.UnOp) (constant.Value, bool)
 	equate     bool // see pwPath.equate: only for consumers that do not re-evaluate the path's decisions against a model of their own
+	rounds     int  // without unroll1: a loop header may be arrived at this many times before the path ends as "loop" (0: twice)
 	unroll1    bool // loops: explore zero and one iteration (on re-entering a loop header the exit edge is forced)
 	seed       func(*pwPath, ssa.Value) (constant.Value, bool)
 	inline     func(caller, callee *ssa.Function) bool
@@ -1166,6 +1167,11 @@ func (pw *pathWalker) run(s *pwState) []*pwState {
 						delete(s.p.consts, v)
 					}
 				}
+				if pw.rounds > 0 && !pw.unroll1 && s.visits[b] <= pw.rounds && !s.p.loopFree {
+					// another way round is explored (the first one may have been taken under open conditions that
+					// are decided from now on): the path ends at the next arrival, or as soon as a round was free
+					goto walkOn
+				}
 				if !pw.unroll1 || s.visits[b] > 2 {
 					pw.finish(s, "loop", nil)
 					return nil
@@ -1184,6 +1190,7 @@ func (pw *pathWalker) run(s *pwState) []*pwState {
 					s.frame = &nf
 				}
 			}
+		walkOn:
 			// phis: parallel assignment from the incoming edge
 			pi := -1
 			for i, pr := range b.Preds {
